@@ -567,18 +567,58 @@ CORNERS = [  # (rootcode, comps) families outside the exhaustive alphabet
 ]
 
 
-def classify_within(paths):
-    """Finding classes of a failing input (a path or a colliding pair), as predicates on the input."""
+def predicted_known(d, rc, comps):
+    """What the open findings of findings.d/C05.json say within_directory(path, directory d) does for this path:
+    (class, ('value', root name, suffix)) or (class, ('raise', message)), or None when no finding is about this input.
+      absolute-source-path     an absolute path is returned unchanged;
+      reparsed-head-component  the path lies below the directory's parent and the FIRST component of its relative suffix
+                               starts with ~ (os.path.expanduser knows the user: the expanded absolute path is the result)
+                               or has ':' as second character (exactly 'X:' with more components behind it: the absolute
+                               path X:/rest; otherwise ValueError 'relative paths with drives not supported')."""
+    import posixpath
+    if rc == 2:
+        return 'absolute-source-path', ('value', 'absolute', '/' + '/'.join(comps))
+    if rc != 1:
+        return None
+    par = list(d[:-1])
+    rel = list(comps[len(par):])
+    if list(comps[:len(par)]) != par or not rel:
+        return None                       # the relative suffix starts with '..' (or is empty): nothing is re-parsed
+    text = '/'.join(rel)
+    if text.startswith('~'):
+        e = os.path.expanduser(text)
+        if e != text and e.startswith('/'):
+            return 'reparsed-head-component', ('value', 'absolute', posixpath.normpath(e))
+    if text[1:2] == ':':
+        if text[2:3] == '/':
+            return 'reparsed-head-component', ('value', 'absolute', text[:2] + posixpath.normpath(text[2:]))
+        return 'reparsed-head-component', ('raise', 'relative paths with drives not supported')
+    return None
+
+
+def classify_within(d, paths, observed):
+    """Finding classes of a failing input. A class is a predicate on the input AND on the failure: it applies only when
+    the observed outcome is the one the recorded finding predicts for this input (see predicted_known); any other failure
+    on the same input is a different violation.
+      d        components of the directory
+      paths    [(root code, comps)]: the failing path, or the two paths of a collision
+      observed ('raise', message) | ('value', root name, suffix): what within_directory did (for a collision: the common
+               result)"""
     cl = set()
-    for rc, comps in paths:
-        if rc == 2:
-            cl.add('absolute-source-path')
-        if any(c.startswith('~') or c[1:2] == ':' for c in comps):
-            cl.add('reparsed-head-component')
-        if any('\n' in c or '\r' in c for c in comps):
-            cl.add('dotdot-newline-stem' if comps[-1] in ('..\n', 'PAR\n') else 'newline-in-component')
-    if not cl and any(len(c) == 2 for _, comps in paths for c in comps):
-        cl.add('within-two-char-component')
+    if len(paths) == 1:
+        pk = predicted_known(d, *paths[0])
+        if pk is not None and pk[1] == observed:
+            cl.add(pk[0])
+    elif len(paths) == 2 and observed[0] == 'value':
+        (r1, c1), (r2, c2) = paths
+        # dotdot-newline-stem: X/'..\n' is rewritten to X/'PAR\n' and meets the source X/'PAR\n'
+        if (r1 == r2 == 1 and list(c1[:-1]) == list(c2[:-1]) and {c1[-1], c2[-1]} == {'..\n', 'PAR\n'} and
+                observed[1] == 'builddir' and observed[2].split('/')[-1] == 'PAR\n'):
+            cl.add('dotdot-newline-stem')
+        # two paths that the findings above send to one place outside the directory (sub/~/a and sub/~root/a)
+        pks = [predicted_known(d, rc, comps) for rc, comps in paths]
+        if all(pk is not None and pk[1] == observed for pk in pks):
+            cl.update(pk[0] for pk in pks)
     return tuple(sorted(cl))
 
 
@@ -602,7 +642,7 @@ def check_within_set(rep, d, paths, what):
         except ValueError as e:
             fails += rep.fail('%s: within_directory(%r, %r) raises %s' % (what, p, dp, e),
                      {'kind': 'within', 'd': d, 'droot': 1, 'p': comps, 'proot': rc, 'error': str(e)},
-                     classes=classify_within([(rc, comps)]))
+                     classes=classify_within(d, [(rc, comps)], ('raise', str(e))))
             continue
         qc = comps_of(q)
         inside = (q.root == I['Root'].builddir and qc is not None and qc[:len(d)] == d and
@@ -610,14 +650,14 @@ def check_within_set(rep, d, paths, what):
         if not inside:
             fails += rep.fail('%s: within_directory(%r, %r) = %r is not inside the directory' % (what, p, dp, q),
                      {'kind': 'within', 'd': d, 'droot': 1, 'p': comps, 'proot': rc, 'got': [q.root.name, q.suffix]},
-                     classes=classify_within([(rc, comps)]))
+                     classes=classify_within(d, [(rc, comps)], ('value', q.root.name, q.suffix)))
         key = (q.root.name, q.suffix)
         if key in seen and seen[key] != (rc, comps):
             o = seen[key]
             fails += rep.fail('%s: within_directory maps %r and %r (directory %r) both to %r' % (
                 what, '/'.join(o[1]), '/'.join(comps), '/'.join(d), q.suffix),
                 {'kind': 'within-pair', 'd': d, 'p1': o[1], 'proot1': o[0], 'p2': comps, 'proot2': rc, 'got': q.suffix},
-                classes=classify_within([o, (rc, comps)]))
+                classes=classify_within(d, [o, (rc, comps)], ('value', q.root.name, q.suffix)))
         else:
             seen[key] = (rc, comps)
     return fails
